@@ -398,8 +398,10 @@ pub fn run_shard(prop: &'static dyn Property, tier: Tier, seed: u64, cases: u32,
             Err(TestError::Fail(_, tape_data)) => {
                 let mut tape = Tape::new(&tape_data);
                 let case = prop.generate(&mut tape, tier, known_static);
-                let (out, _ctx) = eval_case(prop, &case, known_static, false);
-                let f = match out { Outcome::Fail(f) => f, _ => Failure::new("flaky", "shrunk case no longer fails (flaky check?)") };
+                // a property about nondeterminism (C19) reproduces a failure only with some probability: evaluate the shrunk case a few times
+                let mut f = None;
+                for _ in 0..12 { if let (Outcome::Fail(x), _ctx) = eval_case(prop, &case, known_static, false) { f = Some(x); break; } }
+                let f = f.unwrap_or_else(|| Failure::new("flaky", "shrunk case no longer fails (flaky check?)"));
                 stats.borrow_mut().failure = Some((case, f));
             }
             Err(TestError::Abort(reason)) => {
